@@ -215,7 +215,7 @@ theorem to_float_notNaN (parse : List Nat → Option Nat) (v : Value) (f : Nat)
     simp only [toFloat] at h
     split at h
     · simp at h; subst h; exact orZero_notNaN _
-    · cases h
+    · simp at h; subst h; exact orZero_notNaN _
   | bytes b =>
     simp only [toFloat, bytesToFloat] at h
     split at h
@@ -248,7 +248,7 @@ theorem to_float_idempotent (parse : List Nat → Option Nat) (v w : Value) (h :
       simp only [toFloat] at h
       split at h
       · simp at h; exact ⟨_, h.symm⟩
-      · cases h
+      · simp at h; exact ⟨_, h.symm⟩
     | float b => simp [toFloat] at h; exact ⟨_, h.symm⟩
     | int i => simp [toFloat] at h; exact ⟨_, h.symm⟩
     | bool b => simp [toFloat] at h; exact ⟨_, h.symm⟩
